@@ -28,28 +28,32 @@ Proof. exact decode_routes_agree. Qed.
 Print Assumptions C13_decode_routes.
 
 (* ---- on text obtained by serializing a value of the target type every route succeeds and returns it ----
-   The full statement (every route, every type) is FALSE of the code, for one recorded reason:
-   C13-tryinto-datetime-string (routes through toml::Value / toml::Table fail on date-times).
-   (C13-valueser-root-tuple-variant — toml::ser::ValueSerializer dropped the name of a tuple variant at the
-   root — is repaired; its former witness is C13_value_text_tuple_variant below.) *)
-Theorem C13_on_serialized_refuted :
-  exists t v out,
-    has_type v t /\ ser_toml_root t v = Ok out
-    /\ decode R_t t out = Ok v /\ decode R_e t out = Ok v
-    /\ (exists y, to_toml_value out = Ok y /\ to_toml_table out = Ok y)
-    /\ decode R_tval t out = Err EDe /\ decode R_ttab t out = Err EDe.
-Proof. exact on_serialized_refuted. Qed.
-Print Assumptions C13_on_serialized_refuted.
+   (The three defects that made this false are repaired in /repo: C13-tryinto-datetime-string,
+   C13-tryfrom-datetime-table, C13-valueser-root-tuple-variant; their former witnesses are kept below as
+   positive statements.)  What remains excluded is the in-band signalling F14 (`tunnel_free`: no table
+   key spells the private tunnel name). *)
+Theorem C13_on_serialized_datetime :
+  has_type dt_val dt_ty /\ ser_toml_root dt_ty dt_val = Ok dt_tree
+  /\ to_toml_value dt_tree = Ok dt_tree /\ to_toml_table dt_tree = Ok dt_tree
+  /\ forall r, decode r dt_ty dt_tree = Ok dt_val.
+Proof. exact on_serialized_datetime. Qed.
+Print Assumptions C13_on_serialized_datetime.
 
-(* what holds: on the document toml::to_string writes, every toml_edit-based route returns the value —
-   for every type; the routes through toml::Value / toml::Table too when the document shows no
-   date-time and no private key *)
-Theorem C13_on_serialized_partial : forall ty v out, has_type v ty -> ser_toml_root ty v = Ok out ->
+(* a String target does not get the text of a date-time, on any route *)
+Theorem C13_datetime_is_not_a_string :
+  forall r, decode r (TStruct (str "S") [(str "d", TStr)]) dt_tree = Err EDe.
+Proof. exact datetime_is_not_a_string. Qed.
+Print Assumptions C13_datetime_is_not_a_string.
+
+(* on the document toml::to_string writes, every toml_edit-based route returns the value, for every type;
+   the routes through toml::Value / toml::Table too (date-times included) when no table key spells the
+   private tunnel name *)
+Theorem C13_on_serialized : forall ty v out, has_type v ty -> ser_toml_root ty v = Ok out ->
   (forall r, edit_family r = true -> exists v', decode r ty out = Ok v' /\ sval_eq v v')
   /\ (tunnel_free out = true ->
       forall r, r = R_tval \/ r = R_ttab -> exists v', decode r ty out = Ok v' /\ sval_eq v v').
 Proof. exact on_serialized_doc. Qed.
-Print Assumptions C13_on_serialized_partial.
+Print Assumptions C13_on_serialized.
 
 (* ... and on the text of a single value (toml::ser::ValueSerializer), for every type *)
 Theorem C13_on_serialized_value : forall ty v x,
@@ -70,23 +74,21 @@ Theorem C13_value_text_tuple_variant :
 Proof. exact on_serialized_value_tuple_variant. Qed.
 Print Assumptions C13_value_text_tuple_variant.
 
-(* ---- Value::try_from / Table::try_from against serialize-then-parse ----
-   "for every type including those containing date-times" is FALSE (C13-tryfrom-datetime-table). *)
-Theorem C13_try_from_refuted :
-  exists t v out y y',
-    has_type v t /\ ser_toml_root t v = Ok out /\ to_toml_value out = Ok y
-    /\ tv_ser t v = Ok y' /\ tv_ser_table t v = Ok y' /\ y <> y'.
-Proof. exact try_from_refuted. Qed.
-Print Assumptions C13_try_from_refuted.
+(* ---- Value::try_from / Table::try_from against serialize-then-parse, date-times included ---- *)
+Theorem C13_try_from_datetime :
+  ser_toml_root dt_ty dt_val = Ok dt_tree /\ to_toml_value dt_tree = Ok dt_tree
+  /\ tv_ser dt_ty dt_val = Ok dt_tree /\ tv_ser_table dt_ty dt_val = Ok dt_tree.
+Proof. exact try_from_datetime. Qed.
+Print Assumptions C13_try_from_datetime.
 
-(* what holds: the same tree (same key order) when the serialized document shows no date-time and
-   no private key *)
-Theorem C13_try_from_partial : forall ty v out,
+(* the same tree (same key order), for every type including those containing date-times, when no table
+   key of the serialized document spells the private tunnel name *)
+Theorem C13_try_from : forall ty v out,
   has_type v ty -> ser_toml_root ty v = Ok out -> tunnel_free out = true ->
   exists y, to_toml_value out = Ok y /\ to_toml_table out = Ok y /\ tv_ser ty v = Ok y
             /\ (forall y', tv_ser_table ty v = Ok y' -> y' = y).
 Proof. exact try_from_is_parsed_text. Qed.
-Print Assumptions C13_try_from_partial.
+Print Assumptions C13_try_from.
 
 (* the twin serializers below the root: ValueSerializer's tree, read as a toml::Value, is Value::try_from's *)
 Theorem C13_twin_serializers : forall ty v x,
@@ -110,6 +112,11 @@ Definition ex_val : sval :=
 
 Example C13_ex_hyps : has_type ex_val ex_ty /\ twin_ty ex_ty = true
   /\ match ser_toml_root ex_ty ex_val with Ok out => tunnel_free out && plain_root out | Err _ => false end = true.
+Proof. repeat split; vm_compute; reflexivity. Qed.
+
+(* the hypotheses of C13_on_serialized / C13_try_from hold of the date-time witness too *)
+Example C13_ex_datetime_hyps : has_type dt_val dt_ty /\ twin_ty dt_ty = true
+  /\ match ser_toml_root dt_ty dt_val with Ok out => tunnel_free out && plain_root out | Err _ => false end = true.
 Proof. repeat split; vm_compute; reflexivity. Qed.
 
 (* the document order is m (k2, k1), o (y, x), t, w, c; the toml::Value is sorted; both families read it back
